@@ -137,6 +137,16 @@ func Labels(kv ...string) labels.Labels {
 	return l
 }
 
+// LabelsCap: like Labels, but the slice has spare capacity (as label sets built by
+// appending have): an append by the engine would write into the owner's backing array.
+func LabelsCap(extra int, kv ...string) labels.Labels {
+	l := make(labels.Labels, 0, len(kv)/2+extra)
+	for i := 0; i+1 < len(kv); i += 2 {
+		l = append(l, labels.Label{Name: kv[i], Value: kv[i+1]})
+	}
+	return l
+}
+
 // SameLabels compares two label sets element-wise.
 func SameLabels(a, b labels.Labels) bool {
 	if len(a) != len(b) {
